@@ -8,6 +8,8 @@ sys.path.insert(0, os.path.dirname(os.path.abspath(__file__)))
 import vf
 import lanes
 import fpgen
+sys.path.insert(0, os.path.dirname(os.path.abspath(__file__)))
+import c04
 import acc_common
 
 FT = [("f32", 4, 32), ("f64", 8, 64)]
@@ -44,6 +46,8 @@ def body(ctx):
         # a replay file holds plan lines; tabulated functions find their points in the lanes of the operand rows
         for line in lanes.replay_plan(ctx.replay):
             f = line.split()
+            if f[0] in ("cst", "cld"):
+                continue
             nb, bits = (4, 32) if f[2] == "f32" else (8, 64)
             L = 64 // nb
             lanes_of = lambda hx: [int.from_bytes(bytes.fromhex(hx)[i * nb:(i + 1) * nb], "little") for i in range(L)]
@@ -155,6 +159,13 @@ def body(ctx):
         out.append(e)
     ctx.log("events: %d" % len(out))
     lanes.validate(ctx, "T_Cplx.tla", out, "c16", plan_lines=plan)
+    # interleaved loads / stores: memory element i (re, im) <-> lane i of the real and imaginary parts (the plan of C04, judged by T_Mem)
+    mp = [l for l in lanes.replay_plan(ctx.replay) if l.split()[0] in ("cst", "cld")] if ctx.replay else c04.complex_plan(ctx)
+    if mp:
+        mev, mp = lanes.record(ctx, "mem", mp, "c16mem")
+        for e in mev:
+            e.pop("d", None)
+        lanes.validate(ctx, "T_Mem.tla", mev, "c16mem", plan_lines=mp)
     return dict(exhaustive=False,
                 rule="complex<float> and complex<double> on 22 architectures: operands on a log-polar grid (moduli 2^k, 16-64 arguments incl. the axes and both sides of the branch cuts with +-0 parts), "
                      "Gaussian integers and random operands; + - * / and the four fused forms judged EXACTLY in TLC by cross-multiplied dyadic arithmetic (8 eps of the modulus), ==/!=, real/imag/conj/proj bit-exact; "
